@@ -429,6 +429,37 @@ func c16Structure(c *Ctx) {
 			}
 		}
 		c.Floor("R5.pem", nNil, 2, "returns on a nil PEM block")
+		// success means nothing but white space is left: every possibly-nil return holds the must-fact that the
+		// remaining data is empty (the loop ran out) or trims to nothing (end of bundle)
+		dataArg := dec.Call.Args[0]
+		for _, r := range w.MayBeNilReturns(pp) {
+			if pp.Recover != nil && r.Block() == pp.Recover {
+				continue
+			}
+			consumed := f.Any(r.Block(), func(l Lit) bool {
+				bin, ok := l.V.(*ssa.BinOp)
+				if !ok {
+					return false
+				}
+				la := lenArg(bin.X)
+				k, isK := intConst(bin.Y)
+				if la == nil || !isK || k != 0 {
+					return false
+				}
+				isEmpty := (bin.Op == token.EQL && l.Pol) || (bin.Op == token.NEQ && !l.Pol) || (bin.Op == token.GTR && !l.Pol) || (bin.Op == token.LEQ && l.Pol)
+				if !isEmpty {
+					return false
+				}
+				if la == dataArg {
+					return true
+				}
+				if tc, ok := la.(*ssa.Call); ok && calleeName(tc) == "bytes.TrimSpace" && len(tc.Call.Args) == 1 && tc.Call.Args[0] == dataArg {
+					return true
+				}
+				return false
+			})
+			c.Check(consumed, "R5.pem", "ParsePEMCertificates|success only when all input was consumed", w.Pos(r.Pos()), "must-fact len(data) == 0 or len(TrimSpace(data)) == 0", "the parser can succeed with unparsed bytes left (the loop ends while data is non-empty): trailing garbage is accepted")
+		}
 		// append of the parsed certificate, in order, error returned
 		okApp := false
 		for _, call := range callsIn(pp) {
